@@ -142,5 +142,13 @@ Proof.
   unfold index_vals. rewrite index_vals_fst'. apply seq_NoDup.
 Qed.
 
+(* the pool of the decoupled optimiser, regenerated: per objective the picks of the single-objective optimiser, labelled with
+   that objective — the model's per_objective *)
+Theorem gen_decoupled_pool_is_model : forall q tables, gen_decoupled_pool q tables = per_objective q tables.
+Proof.
+  intros q tables. unfold gen_decoupled_pool, per_objective. apply flat_map_ext. intros et.
+  rewrite gen_optimize_is_model_on_tables. reflexivity.
+Qed.
+
 Print Assumptions gen_optimize_is_model.
 Print Assumptions gen_optimize_is_model_on_tables.
